@@ -144,10 +144,18 @@ impl<'tcx> Dumper<'tcx> {
    }
 
    fn snippet(&self, sp: Span) -> Option<String> {
+      let mut sp = sp;
       if sp.from_expansion() {
-         // compiler desugarings (`a..b`, `for`, `?`) keep pointing at user text; macro expansions do not
-         match sp.ctxt().outer_expn_data().kind {
+         // compiler desugarings (`a..b`, `for`, `?`) keep pointing at user text; macro expansions do not - except the expansion of
+         // a function-like macro that the user wrote inside the program (`vec![*x]`): its text is the invocation
+         let ed = sp.ctxt().outer_expn_data();
+         match ed.kind {
             rustc_span::ExpnKind::Desugaring(_) => {},
+            rustc_span::ExpnKind::Macro(rustc_span::MacroKind::Bang, name)
+               if !name.as_str().starts_with("ascent") && !ed.call_site.from_expansion() =>
+            {
+               sp = ed.call_site;
+            },
             _ => return None,
          }
       }
